@@ -1016,8 +1016,8 @@ class CPCCA(BaseModelCrossSet):
 
     @staticmethod
     def _normalize_data(X, dim):
-        # Assume centered data
-        return X / X.std(dim)
+        # Assume centered data; same N-1 normalisation as the cross-covariance
+        return X / X.std(dim, ddof=1)
 
 
 class ComplexCPCCA(CPCCA):
